@@ -196,8 +196,8 @@ def check_match(body, local, bb):
     return "ok", "match"
 
 
-def run(ctx):
-    for cfg in CONFIGS:
+def run(ctx, configs=None):
+    for cfg in (configs or CONFIGS):
         prog = ctx.prog(cfg)
         roles, eff = effects.build(prog)
         ctx.rule("C19.result-discipline", "every Result with an io/shim/nom error is propagated, returned or explicitly handled")
@@ -461,6 +461,4 @@ def run(ctx):
 
     # an error met while a writer is finalized on drop is only reported by the next flush: the flush at the end of every
     # loop iteration (C12's typestate rule: clean at every wait) is what surfaces it before the next callback
-    import rules.C12 as C12
-    C12.run(ctx)
 
